@@ -176,9 +176,23 @@ oscore_encode_option_value(uint8_t *option_buffer,
                            uint8_t appendix_b_2) {
   size_t offset = 1;
   size_t rem_space = option_buf_len;
+  size_t need = 1;
 
   (void)group_flag;
   if (cose->partial_iv.length > 5) {
+    return 0;
+  }
+  /* Everything has to fit: flag byte, Partial IV, kid context (with its
+     length byte and, for Appendix B.2, up to 3 bytes of CBOR header), kid */
+  if (cose->partial_iv.s != NULL)
+    need += cose->partial_iv.length;
+  if (cose->kid_context.length > 0 && cose->kid_context.s != NULL)
+    need += 1 + (appendix_b_2 ? 3 : 0) + cose->kid_context.length;
+  if (cose->key_id.s != NULL)
+    need += cose->key_id.length;
+  if (need > option_buf_len) {
+    coap_log_warn("OSCORE: OSCORE option (%zu bytes) exceeds the %zu bytes available\n",
+                  need, option_buf_len);
     return 0;
   }
   option_buffer[0] = 0;
